@@ -524,11 +524,19 @@ class BzrServerFactory:
         """
         result = path
         if path.startswith("~"):
-            expanded = self.userdir_expander(path)
+            # ``path`` is a URL-escaped relpath, the expander and base_path
+            # work on filesystem paths: unescape before expanding and escape
+            # what is handed back, so that a home directory whose name
+            # contains e.g. "%2F" is not decoded a second time further down.
+            try:
+                fs_path = urlutils.unescape(path)
+            except urlutils.InvalidURL:
+                return result
+            expanded = self.userdir_expander(fs_path)
             if not expanded.endswith("/"):
                 expanded += "/"
             if expanded.startswith(self.base_path):
-                result = expanded[len(self.base_path) :]
+                result = urlutils.escape(expanded[len(self.base_path) :])
         return result
 
     def _make_expand_userdirs_filter(self, transport):
